@@ -9,6 +9,8 @@ F (specification terminal + decoding rules on the REAL bytes):
      through a tty would show them) decodes to those rows, attributes default afterwards;
    * any complete output in any style leaves fg/ul/bg default;
    * with background formatting, only cells of the placeholder's rectangle carry a background.
+Sequence cases (k = "seq"): 2..6 renderings in ONE fresh process (the same request again, with only
+   no_escape flipped, other formatting, one parameter changed, …), each rendering judged on its own.
 """
 from __future__ import annotations
 
@@ -17,7 +19,7 @@ from pathlib import Path
 
 from . import ph_util as U
 from .common import Ctx
-from .c07 import COLS_SMALL, ROWS, SGRS, byte_ids, byte_pids, geometry
+from .c07 import COLS_SMALL, ROWS, SGRS, byte_ids, byte_pids, geometry, fresh_request, neighbour_request, realise
 
 DRIVERS = ["drv_ph"]
 EVIDENCE = dict(
@@ -56,29 +58,54 @@ def rand_fmt(rng, p):
 
 
 # ---------------------------------------------------------------------------------------
-def _requests(c):
+def _impl(c):
+    """the real code on a single case (in this process)"""
+    p, m, f = c["ph"], c["mode"], c["fmt"]
+    if c["k"] == "alone":
+        return U.impl_lines(p, m, f, c.get("noesc", 0))
+    if c["k"] == "stream":
+        return U.impl_stream(c["style"], p, m, f, c.get("via", "direct"), None, c)
+    raise ValueError(c["k"])
+
+
+def _noesc(c):
+    """no_escape=True is the explicit opt-out of the resets and colours: correspondence only"""
+    return bool(c.get("noesc", 0)) if c["k"] == "alone" else (c["style"][0] == "lfall" and bool(c["style"][1]))
+
+
+def _reqs(c, impl):
     p, m, f = c["ph"], c["mode"], c["fmt"]
     C = p[4] - p[2]
     if c["k"] == "alone":
-        st, lines = U.impl_lines(p, m, f, 0)
-        reqs = [U.req_lines(p, m, f, 0)]
-        if st == "ok" and U.in_domain(p):
+        st, lines = impl
+        reqs = [U.req_lines(p, m, f, c.get("noesc", 0))]
+        if st == "ok" and U.in_domain(p) and not _noesc(c):
             W = C + c.get("slack", 0)
             order = c["order"]
             data = b"\r\n".join(lines[i] for i in order)
             reqs.append(U.req_spec(W, max(1, len(order)), 0, 0, 1, 1, 0, c.get("sgr", DEFAULT), data))
             for i in c.get("single", []):
                 reqs.append(U.req_spec(W, 1, 0, 0, 1, 1, 0, c.get("sgr", DEFAULT), lines[i]))
-        return (st, lines), reqs
+        return reqs
     if c["k"] == "stream":
         style = c["style"]
-        st, data = U.impl_stream(style, p, m, f, c.get("via", "direct"))
+        st, data = impl
         reqs = [U.req_stream(style, p, m, f)]
-        if st == "ok" and U.in_domain(p):
-            onlcr = 1 if (style[0] == "lfall" or (style[0] == "cur" and style[2])) else 0
+        if st == "ok" and U.in_domain(p) and not _noesc(c):
+            onlcr = 1 if (style[0] == "lfall" or (style[0] == "cur" and style[2]) or (style[0] == "disp" and style[1] is None and style[3])) else 0
             reqs.append(U.req_spec(c["W"], c["H"], c["x0"], c["y0"], c.get("cub", 1), c.get("rs", 1), onlcr, c.get("sgr", DEFAULT), data))
-        return (st, data), reqs
+        return reqs
     raise ValueError(c["k"])
+
+
+def _requests(c, res=None):
+    """A sequence case (k = "seq") runs in its own fresh process (U.isolated); `res` = its result if already there."""
+    if c["k"] == "seq":
+        if res is None:
+            res = U.isolated().run_many([c["calls"]])[0]
+        return U.seq_requests(c, res, _reqs)
+    impl = _impl(c)
+    return impl, _reqs(c, impl)
 
 
 def _check_screen(ctx, c, sp, want, rect, what):
@@ -94,11 +121,16 @@ def _check_screen(ctx, c, sp, want, rect, what):
 
 
 def _judge(ctx: Ctx, c, impl, replies):
+    if c["k"] == "seq":
+        U.seq_judge(ctx, c, impl, replies, _judge, check_case)
+        return
     p, f = c["ph"], c["fmt"]
     st, out = impl
     ctx.count("kind:" + c["k"])
     ctx.count("fmt:" + f["t"])
     ctx.count("impl:" + st)
+    if _noesc(c):
+        ctx.count("no_escape")
     C = p[4] - p[2]
     if c["k"] == "alone":
         mst, mlines = U.model_lines(replies[0])
@@ -148,14 +180,16 @@ def check_case(ctx: Ctx, c: dict):
 def run_batch(ctx: Ctx, batch):
     if not batch:
         return
-    prepared = [(c,) + _requests(c) for c in batch]
+    seqs = [c for c in batch if c["k"] == "seq"]
+    done = iter(U.isolated().run_many([c["calls"] for c in seqs])) if seqs else iter(())
+    prepared = [(c,) + _requests(c, next(done) if c["k"] == "seq" else None) for c in batch]
     flat = [r for (_, _, reqs) in prepared for r in reqs]
     replies = ctx.driver("drv_ph").ask_many(flat)
     i = 0
     for c, impl, reqs in prepared:
         _judge(ctx, c, impl, replies[i:i + len(reqs)])
         i += len(reqs)
-        ctx.case(c, nontrivial=(impl[0] == "ok" and c["fmt"]["t"] != "n" or len(c.get("order", [])) > 1))
+        ctx.case(c, nontrivial=(impl[0] == "seq" or impl[0] == "ok" and c["fmt"]["t"] != "n" or len(c.get("order", [])) > 1))
 
 
 # ---------------------------------------------------------------------------------------
@@ -198,6 +232,71 @@ def cases(ctx: Ctx):
         touches = c["x0"] + (ec - sc) == c["W"]
         c["cub"] = 1 if (style == ["cur", 0, 0] and touches) else rng.randrange(2)
         yield c
+    # sequences of renderings in one process (state kept between calls: memoised colours / lines, shared objects, call order)
+    yield from seq_cases(rng, 900 if quick else 9000, ids, pids, modes)
+
+
+def rand_order(rng, R):
+    kind = rng.random()
+    if kind < 0.3:
+        order = list(range(R))
+        rng.shuffle(order)
+    elif kind < 0.6:
+        order = sorted(rng.sample(range(R), rng.randrange(1, R + 1)))
+    else:
+        order = list(range(R))
+    return order
+
+
+def realise13(rng, q):
+    """one rendering of the request q (placeholder, mode, formatting, no_escape): to_lines shown as lines alone, or a
+    complete output in some style through some entry point (c07.realise)"""
+    p, m = list(q["ph"]), list(q["mode"])
+    extra = {}
+    if rng.random() < 0.5:
+        extra["omitopt"] = 1
+    slot = rng.choice([None, 0, 0, 1])
+    if slot is not None:
+        extra["slot"] = slot
+    if q["noesc"] and rng.random() < 0.3:
+        return dict(k="stream", style=["lfall", 1], ph=p, mode=m, fmt=q["fmt"], W=10, H=4, x0=0, y0=0, **extra)
+    if q["noesc"] or rng.random() < 0.45:
+        R = p[5] - p[3]
+        c = dict(k="alone", ph=p, mode=m, fmt=q["fmt"], order=rand_order(rng, R), single=[rng.randrange(R)], sgr=rng.choice(SGRS),
+                 slack=rng.choice([0, 0, 2]), **extra)
+        if q["noesc"]:
+            c["noesc"] = 1
+        return c
+    c = realise(rng, q, q["fmt"])
+    if c["k"] == "lines":
+        R = p[5] - p[3]
+        c = dict(c, k="alone", order=rand_order(rng, R), single=[rng.randrange(R)], slack=rng.choice([0, 0, 2]))
+        c.pop("x0", None)
+    return c
+
+
+def seq_cases(rng, n, ids, pids, modes):
+    """Sequences of 2..6 renderings made by one program.  After the first, each is the same request again, the same with
+    ONLY no_escape flipped, the same with other formatting, a neighbour (one or two of id / placement / rectangle / mode
+    field / style changed) or a new request; every rendering is judged on its own."""
+    for _ in range(n):
+        calls, q = [], None
+        for _j in range(rng.choice([2, 2, 3, 3, 4, 6])):
+            r = rng.random()
+            if q is None or r < 0.2:
+                q = fresh_request(rng, ids, pids, modes)
+                q["fmt"] = rand_fmt(rng, q["ph"])
+                q["noesc"] = int(rng.random() < 0.3)
+            elif r < 0.3:
+                pass
+            elif r < 0.55:
+                q = dict(q, noesc=1 - q["noesc"])
+            elif r < 0.7:
+                q = dict(q, fmt=rand_fmt(rng, q["ph"]))
+            else:
+                q = dict(neighbour_request(rng, q, ids, pids, modes), fmt=q["fmt"], noesc=q["noesc"])
+            calls.append(realise13(rng, q))
+        yield dict(k="seq", calls=calls)
 
 
 def run(ctx: Ctx):
@@ -205,7 +304,11 @@ def run(ctx: Ctx):
                 "included), formatting in {None, bytes, RowFormatting, CellFormatting} built from the two background forms of the "
                 "display path (per-row / per-cell tables, empty entries); 'alone': a permutation / ordered subset / multiset of the "
                 "lines joined by CR LF plus single lines, fed at column 0 of blank rows of a terminal in one of 5 start SGR states; "
-                "'stream': complete output in every style on geometries with 0..rows scrolls. distinct = canonical JSON; "
+                "'stream': complete output in every style on geometries with 0..rows scrolls; 'seq': 2..6 renderings run in ONE fresh "
+                "process (the same request again / with only no_escape flipped / with other formatting / with one or two of id, "
+                "placement, rectangle, mode field, style changed / a new one), through to_lines, the to_stream* methods and "
+                "GraphicsTerminal.print_placeholder (keyword-only, object, object + overrides), on re-used objects, each rendering "
+                "judged on its own (no_escape=True renderings by the correspondence only). distinct = canonical JSON; "
                 "non-trivial = formatting present or more than one line shown")
     corpus_dir = Path(__file__).resolve().parent.parent / "corpus" / "C13"
     if corpus_dir.is_dir():
